@@ -165,6 +165,10 @@ def run(ctx, rep):
     align_rules(facts, rep)
     from rules.C12 import ts_rules
     ts_rules(facts, rep)               # reported as C17/C12-TS
+    from rules.C03 import central_rules as _c03central
+    _c03central(ctx, facts, rep)       # reported as C17/C03-CENTRAL: the offset the reader reports for an aligned entry: header + 30 + name + (possibly 64 KiB of) extra, in 64 bits
+    from rules.C02 import seekabs_rules
+    seekabs_rules(facts, rep)          # reported as C17/C02-SEEKABS: the data of an entry with extra data starts where the header says
     from rules.C02 import limit_rules, narrow_rules
     limit_rules(facts, rep)            # reported as C17/C02-LIMIT: the extra-data size guard is the 16-bit field's capacity
     narrow_rules(ctx, facts, rep)      # reported as C17/C02-NARROW: the back-patched extra length is a checked conversion: extra-data mode (local / central-only) belongs to one entry and ends with it
